@@ -32,7 +32,39 @@ def n_runs(tier):
     return 60000 if tier == "quick" else 2000000
 
 
+def fault_combos():
+    """Every single and every double fault placement over {log attempt 0..5, flush, inspection} x
+    pre-installed profiler x block exit."""
+    import itertools
+
+    sites = [("log", i) for i in range(6)] + [("flush", None), ("inspect", None)]
+    combos = [(a,) for a in sites] + list(itertools.combinations(sites, 2))
+    out = []
+    for c in combos:
+        for pre in ("none", "recorder", "outer"):
+            for ex in ("normal", "exception"):
+                out.append((c, pre, ex))
+    return out
+
+
+ENUM_WORKLOADS = 24
+
+
 def gen(rng, index, tier):
+    plan = gen_random(rng, index, tier)
+    n_enum = len(fault_combos()) * (ENUM_WORKLOADS if tier == "thorough" else 2)
+    if index < n_enum:
+        combos = fault_combos()
+        c, pre, ex = combos[index % len(combos)]
+        faults = {"log": sorted(i for k, i in c if k == "log"), "flush": any(k == "flush" for k, _ in c), "inspect": any(k == "inspect" for k, _ in c)}
+        plan["faults"] = faults
+        plan["pre_profiler"] = pre
+        plan["block_exit"] = ex
+        plan["enumerated"] = True
+    return plan
+
+
+def gen_random(rng, index, tier):
     pool = 512 if tier == "quick" else 4096
     spec, pkn = c02.gen_program_spec(int(os.environ.get("VERIF_SEED", "1") or 1), pool, index)
     kn = c02.swarm_knobs(rng)
@@ -337,6 +369,8 @@ def execute(plan):
         probes["traced block exits by exception"] = 1
     if plan["prog"].get("proxied"):
         probes["callable proxy bound to a module global"] = 1
+    if plan.get("enumerated"):
+        probes["enumerated single/double fault placement"] = 1
     return {
         "violations": V,
         # metaclass __eq__/__hash__ invocation counts depend on id()-based hashes (memory layout): excluded from the digest
